@@ -286,7 +286,7 @@ open SpecPlan CalcGeo CalcComplete
 /-- **`undoDeletion` after the nodes have been moved back down**: the proof hashes are placed where
 nothing is stored, every target and every ancestor of a target is re-computed and stored, the
 targets are cached — on the abstract state this is `MapIngest.ingA`, exactly as for `ingest` -/
-theorem undoDeletion_rep (cr : CR H) {m m2 : MapPollard H} {F : Forest H} {T : Nat}
+theorem undoDeletion_rep (nz : NZ H) {m m2 : MapPollard H} {F : Forest H} {T : Nat}
     (hrows : m.totalRows = H8 T) (hT : T ≤ 63) (hn : m.numLeaves = BitVec.ofNat 64 F.numLeaves)
     (hn63 : F.numLeaves < 2 ^ 63) (hfit : F.rows ≤ T) (hy : Hyg F)
     {L : List H} {ts : List Pos} {ps : List H} (hnd : L.Nodup) (hc : F.canon L = some (ts, ps))
@@ -304,7 +304,7 @@ theorem undoDeletion_rep (cr : CR H) {m m2 : MapPollard H} {F : Forest H} {T : N
         (fun x => if x ∈ L then F.posOf x else C2 x) ∧
       m'.numLeaves = m.numLeaves ∧ m'.full = false := by
   have hn64 : F.numLeaves < 2 ^ 64 := Nat.lt_trans hn63 (by decide)
-  have Lw := laws_forest cr F hn64 hy
+  have Lw := laws_forest nz F hn64 hy
   have h63 : F.rows ≤ 63 := by omega
   have htr : TreeRows m.numLeaves = H8 F.rows := by rw [hn]; exact SpecView.treeRows_eq hn63
   have tok := canon_targetsOK hc
@@ -411,8 +411,8 @@ theorem undoDeletion_rep (cr : CR H) {m m2 : MapPollard H} {F : Forest H} {T : N
       | none => (ts.map (E F.rows)).map (fun _ => zero)) = ts.map (valAt CTree.hash F) := by
     rw [canon_target_vals hc]
     simp [CTree.hash]
-  obtain ⟨r, h5, _, _, hnodes⟩ := calc_generic (Nat.le_of_lt hn63) cr.nonzero hy.nz hnd hc CTree.hash
-    (fun a b ga gb => hash_node_comb cr.nonzero ga gb) (fun _ _ _ _ _ _ _ => rfl) (some L) hdh []
+  obtain ⟨r, h5, _, _, hnodes⟩ := calc_generic (Nat.le_of_lt hn63) nz.nonzero hy.nz hnd hc CTree.hash
+    (fun a b ga gb => hash_node_comb nz.nonzero ga gb) (fun _ _ _ _ _ _ _ => rfl) (some L) hdh []
   have h5' : calculateHashes m3.numLeaves (some L) (ts.map (encP F.rows)) ps = .ok r := by
     rw [hn3, hnl2, hn]
     rw [List.append_nil] at h5
@@ -437,7 +437,7 @@ theorem undoDeletion_rep (cr : CR H) {m m2 : MapPollard H} {F : Forest H} {T : N
   -- (8) `putCalculated`
   have tsPos : ∀ t ∈ ts, F.posOf (tvF F t) = some t := by
     intro t ht
-    exact (posOf_iff F hn64 hy cr).2 (ts_val cr hn64 hy hc ht).2
+    exact (posOf_iff F hn64 hy nz).2 (ts_val nz hn64 hy hc ht).2
   obtain ⟨rep4, hf4, hn4⟩ := putCalculated_rep'
     (fun p => (ts.map (encP T)).contains p) (fun p => decide (p ∈ ts)) (tvF F) F.posOf
     (pathSet F ts) m3 _ C2 rep3 hf3
@@ -447,14 +447,14 @@ theorem undoDeletion_rep (cr : CR H) {m m2 : MapPollard H} {F : Forest H} {T : N
   have hiff : (∃ t ∈ pathSet F ts, decide (t ∈ ts) = true ∧ tvF F t = x) ↔ x ∈ L := by
     constructor
     · rintro ⟨t, h1, h2, h3⟩
-      have := ts_val cr hn64 hy hc (of_decide_eq_true h2)
+      have := ts_val nz hn64 hy hc (of_decide_eq_true h2)
       rw [h3] at this
       exact this.1
     · intro h
       obtain ⟨_, hp, _, _⟩ := canon_spec hc
       obtain ⟨p, hpl⟩ := hp x h
       have hm := posOf_mem hpl
-      have hpts : p ∈ ts := (ts_iff cr hn64 hy hc p).2 ⟨x, h, hm⟩
+      have hpts : p ∈ ts := (ts_iff nz hn64 hy hc p).2 ⟨x, h, hm⟩
       refine ⟨p, targets_sub_pathSet tok hpts, decide_eq_true hpts, ?_⟩
       unfold tvF
       rw [SpecNodes.nodeAt_of_mem hm]; rfl
@@ -519,7 +519,7 @@ example : ∃ m', MapPollard.undoDeletion (([(0, 2)] : List Pos).map (encP F5.ro
     Rep m' 63 (ingA (pathSet F5 [(0, 2)]) (F5.proofPositions [(0, 2)]) [(0, 2)] (tvF F5) (absA md2 63))
       (fun x => if x ∈ [T.leaf 2] then F5.posOf x else absC md2 63 x) ∧
     m'.numLeaves = md.numLeaves ∧ m'.full = false := by
-  refine undoDeletion_rep crT (m := md) (m2 := md2) (F := F5) (T := 63) (by decide +kernel) (by decide)
+  refine undoDeletion_rep crT.toNZ (m := md) (m2 := md2) (F := F5) (T := 63) (by decide +kernel) (by decide)
     (by decide +kernel) (by decide) (by decide) F5_hyg (by decide) canon2 (ds := [(0, 2)])
     (by decide +kernel) (pair_ok _ (by decide +kernel)) md2_rep (by decide +kernel) (by decide +kernel) ?_
   have e : F5.proofPositions [(0, 2)] = [(0, 3), (1, 0)] := by decide +kernel
